@@ -6,9 +6,11 @@ import functools
 import itertools
 import os
 
-from ..common import remove_scratch, scratch_dir, write_tree
+from ..common import remove_scratch, run_rule, scratch_dir, write_tree
 from ..engine import Result
 from ..scan import TEMPLATES, chains, check_alphabet, innermost_slot, is_ancestor, observed, place, scan
+
+from pytestarch import Rule  # noqa: E402
 
 ID = "C02"
 RULE = (
@@ -203,9 +205,12 @@ SKELETON = {
     "top/b/b.py": "",
     "top/b/e/e.py": "",
     "top/top.py": "",
+    # siblings whose names extend another module's name as a plain string (x / xy, c / cx)
+    "top/xy.py": "",
+    "top/b/cx.py": "",
 }
 SK_MODULES = ["top", "top.__init__", "top.a", "top.b", "top.b.__init__", "top.b.c", "top.b.e", "top.b.e.__init__",
-              "top.b.e.f", "top.b.g", "top.b.g.h", "top.x", "top.b.b", "top.b.e.e", "top.top"]
+              "top.b.e.f", "top.b.g", "top.b.g.h", "top.x", "top.b.b", "top.b.e.e", "top.top", "top.xy", "top.b.cx"]
 
 
 def package_of(file_mod):
@@ -295,6 +300,24 @@ def run_skeleton(res, only=None):
                     out_edges = {v for (u, v) in edges if u == imod and not is_ancestor(v, imod)}
                     stray = {(u, v) for (u, v) in edges if u != imod and not is_ancestor(v, u)}
                     case = {"part": "skeleton", "key": key}
+                    # the same fact seen through the public query API: the importer imports the named module and
+                    # no sibling whose name merely starts with the same characters
+                    if not opts and len(must_in) == 1:
+                        t = next(iter(must_in))
+                        sibs = [m for m in mods if m != t and (m.startswith(t) or t.startswith(m)) and not is_ancestor(m, t) and not is_ancestor(t, m)
+                                and m != imod and not is_ancestor(m, imod) and not is_ancestor(imod, m)]
+                        bad = None
+                        r = run_rule(Rule().modules_that().are_named(imod).should().import_modules_that().are_named(t), ev)
+                        if r[0] != "PASS":
+                            bad = (f"'{imod} should import {t}' passes", list(r))
+                        for sib in sibs:
+                            r = run_rule(Rule().modules_that().are_named(imod).should_not().import_modules_that().are_named(sib), ev)
+                            res.stats["skeleton:rule-on-prefix-sibling"] += 1
+                            if r[0] != "PASS":
+                                bad = (f"'{imod} should not import {sib}' passes", list(r))
+                        if bad:
+                            res.violation("import-seen-through-rules-differs-from-statement", case, bad[0], bad[1])
+                            continue
                     if must_in - out_edges:
                         res.violation("import-statement-without-edge", case, sorted(must_in), {"missing": sorted(must_in - out_edges), "edges": sorted(out_edges)})
                     elif out_edges - may_in or stray:
